@@ -153,3 +153,38 @@ func VerifC09Pair() {
 	}
 	verifReach("end")
 }
+
+// C09.recent — the newest / oldest available epoch returned to a query is a loaded epoch (never
+// nil without an error), whatever reload runs concurrently.
+func VerifC09Recent() {
+	m := verifC09Setup()
+	// the reload operations of C09.lock plus the ones that remove the newest epoch
+	writers := append(append([]func(m *MultiEpoch){}, verifC09Writers...),
+		func(m *MultiEpoch) { m.RemoveEpoch(7) },
+		func(m *MultiEpoch) { m.RemoveEpochByConfigFilepath("seven.yml") },
+		func(m *MultiEpoch) { m.ReplaceOrAddEpoch(7, verifC09Epoch(7, "seven2.yml")) },
+	)
+	w := verifChoice("writer", len(writers))
+	which := verifChoice("query", 2)
+	done := make(chan int, 2)
+	var got *Epoch
+	var gerr error
+	go func() {
+		if which == 0 {
+			got, gerr = m.GetMostRecentAvailableEpoch()
+		} else {
+			got, gerr = m.GetOldestAvailableEpoch()
+		}
+		done <- 1
+	}()
+	go func() { writers[w](m); done <- 2 }()
+	<-done
+	<-done
+	// (the server always has at least one epoch here: no writer removes both 5 and 7)
+	verifAssert(gerr == nil, "C09.recent: newest/oldest epoch query failed although an epoch stayed loaded")
+	verifAssert(got != nil, "C09.recent: query returned a nil epoch without an error")
+	if got != nil {
+		verifAssert(got.epoch == 5 || got.epoch == 7 || got.epoch == 9, "C09.recent: query returned an epoch that was never loaded")
+	}
+	verifReach("end")
+}
